@@ -498,7 +498,7 @@ class Session:
                 else:
                     raise StopProgram(1, f"PathError: Path does not exist: {arg}")
             self.log(op="static", label=label, trees=sorted(set(trees)), files=sorted(set(files)),
-                     patterns=[p for p, _ in patterns])
+                     patterns=[p for p, _ in patterns], pattern_matches=dict(patterns))
             await self._call(ctx, "declare_static", h.declare_static(
                 job, sorted(set(trees)), sorted(set(files)), patterns))
         elif name == "static_raw":
@@ -510,7 +510,7 @@ class Session:
                 ng.glob()
                 patterns.append((pattern, [str(p) for p in ng.files()]))
             self.log(op="static", label=label, trees=trees, files=files,
-                     patterns=[p for p, _ in patterns], raw=True)
+                     patterns=[p for p, _ in patterns], pattern_matches=dict(patterns), raw=True)
             await self._call(ctx, "declare_static", h.declare_static(job, trees, files, patterns))
         elif name == "seq":
             for sub in args:
